@@ -19,6 +19,9 @@
 #ifndef N
 #define N 4
 #endif
+#ifndef UNIT
+#define UNIT 2      // bytes per character of the stub decoder (3: a unit needs up to two top-ups when the stream delivers single bytes)
+#endif
 static XMLByte g_in[N]; static XMLSize_t g_n;
 // Stubs write through TYPED lvalues of the reader (r->fRawByteBuf[i], r->fCharBuf[i]) instead of through the raw pointers they are handed:
 // CBMC resolves a store through a pointer with symbolic offset into a struct only as a byte-level update of the whole object.
@@ -45,10 +48,10 @@ struct Dec2 : XMLTranscoder {
     XMLSize_t si = (XMLSize_t)(src - g_reader->fRawByteBuf), ci = (XMLSize_t)(toFill - g_reader->fCharBuf), zi = (XMLSize_t)(sizes - g_reader->fCharSizeBuf);
     VX_ASSERT(si <= XMLReader::kRawBufSize && n <= XMLReader::kRawBufSize - si, "the decoder is handed only bytes inside the raw buffer");
     VX_ASSERT(ci <= XMLReader::kCharBufSize && max <= XMLReader::kCharBufSize - ci && zi == ci, "the decoder is handed only room inside the character buffer");
-    XMLSize_t k = n / 2 < max ? n / 2 : max;
+    XMLSize_t k = n / UNIT < max ? n / UNIT : max;
     for (XMLSize_t i = 0; i < XMLReader::kCharBufSize; i++) if (i < k) {
-      g_reader->fCharBuf[ci + i] = (XMLCh)(g_reader->fRawByteBuf[si + 2 * i] | (g_reader->fRawByteBuf[si + 2 * i + 1] << 8)); g_reader->fCharSizeBuf[ci + i] = 2; }
-    eaten = 2 * k; return k;
+      g_reader->fCharBuf[ci + i] = (XMLCh)(g_reader->fRawByteBuf[si + UNIT * i] | (g_reader->fRawByteBuf[si + UNIT * i + 1] << 8)); g_reader->fCharSizeBuf[ci + i] = UNIT; }
+    eaten = UNIT * k; return k;
   }
   XMLSize_t transcodeTo(const XMLCh* const, const XMLSize_t, XMLByte* const, const XMLSize_t, XMLSize_t& e, const UnRepOpts) { e = 0; return 0; }
   bool canTranscodeTo(const unsigned int) { return true; }
@@ -65,13 +68,13 @@ static void init(XMLReader* r, BinInputStream* s, XMLTranscoder* t, MemoryManage
 static bool inv(const XMLReader* r) {
   return r->fCharIndex <= r->fCharsAvail && r->fCharsAvail <= XMLReader::kCharBufSize && r->fRawBufIndex <= r->fRawBytesAvail && r->fRawBytesAvail <= XMLReader::kRawBufSize;
 }
-#define MAXOUT (N / 2 + 1)
+#define MAXOUT (N / UNIT + 1)
 // reference: UTF-8 decoding (Unicode Table 3-7) of the whole byte string, then XML 1.0 end-of-line normalisation for external entities
 struct Ref { XMLCh out[N + 1]; XMLSize_t n; bool ill; unsigned long line, col; };
 // reference: UTF-16LE decoding of the whole byte string (a trailing odd byte is an incomplete unit), then XML 1.0 end-of-line normalisation
 static void reference(const XMLByte* s, XMLSize_t n, bool external, Ref& r) {
   XMLCh dec[N + 1]; XMLSize_t dn = 0; r.ill = false;
-  for (XMLSize_t i = 0; i + 1 < N + 1; i += 2) if (i + 1 < n) dec[dn++] = (XMLCh)(s[i] | (s[i + 1] << 8));
+  for (XMLSize_t i = 0; i + UNIT - 1 < N + 1; i += UNIT) if (i + UNIT - 1 < n) dec[dn++] = (XMLCh)(s[i] | (s[i + 1] << 8));
   r.n = 0; r.line = 1; r.col = 1;
   for (XMLSize_t k = 0; k < N; k++) if (k < dn) {
     XMLCh c = dec[k];
@@ -106,8 +109,8 @@ extern "C" void harness_reader_chunks(void) {
     bool plain = true; for (XMLSize_t i = 0; i < MAXOUT; i++) if (i < n2 && (o2[i] == 0x85 || o2[i] == 0x2028)) plain = false;
     if (plain) VX_ASSERT(r2.obj.fCurCol == rf.col, "the column number equals that of the whole stream, for every chunking");
   }
-  if (!e2 && n2 == N / 2) VX_REACH("N/2 characters delivered"); if (refilled) VX_REACH("character buffer refilled inside the input");
-  if (!e2 && g_n == N && (N % 2) == 0 && n2 < N / 2) VX_REACH("CR LF folded");
+  if (!e2 && n2 == N / UNIT) VX_REACH("N/UNIT characters delivered"); if (refilled) VX_REACH("character buffer refilled inside the input");
+  if (!e2 && g_n == N && (N % UNIT) == 0 && n2 < N / UNIT) VX_REACH("CR LF folded");
 }
 #ifndef NC
 #define NC 5
